@@ -135,7 +135,9 @@ impl Arena {
         let offset = self.offset.get();
 
         let beg = (offset + alignment - 1) & !(alignment - 1);
-        let end = beg + bytes;
+        let Some(end) = beg.checked_add(bytes) else {
+            return Err(AllocError);
+        };
 
         if end > commit {
             return self.alloc_raw_bump(beg, end);
@@ -156,7 +158,10 @@ impl Arena {
     fn alloc_raw_bump(&self, beg: usize, end: usize) -> Result<NonNull<[u8]>, AllocError> {
         let offset = self.offset.get();
         let commit_old = self.commit.get();
-        let commit_new = (end + ALLOC_CHUNK_SIZE - 1) & !(ALLOC_CHUNK_SIZE - 1);
+        let Some(commit_new) = end.checked_add(ALLOC_CHUNK_SIZE - 1) else {
+            return Err(AllocError);
+        };
+        let commit_new = commit_new & !(ALLOC_CHUNK_SIZE - 1);
 
         if commit_new > self.capacity
             || unsafe {
@@ -188,7 +193,7 @@ impl Arena {
 
     #[allow(clippy::mut_from_ref)]
     pub fn alloc_uninit_slice<T>(&self, count: usize) -> &mut [MaybeUninit<T>] {
-        let bytes = mem::size_of::<T>() * count;
+        let bytes = mem::size_of::<T>().checked_mul(count).ok_or(AllocError).unwrap();
         let alignment = mem::align_of::<T>();
         let ptr = self.alloc_raw(bytes, alignment).unwrap();
         unsafe { slice::from_raw_parts_mut(ptr.cast().as_ptr(), count) }
